@@ -132,7 +132,19 @@ class State:
             lo, hi = self.interval(lin)
             if lo == hi == 0:
                 raise Infeasible()
-            return True  # not representable, sound to drop only for exactness; callers decide
+            if len(lin.c) == 1:
+                # v*a + k != 0: shave the excluded point off an end of a's interval
+                (a, v), = lin.c.items()
+                if (-lin.k) % v == 0:
+                    x = (-lin.k) // v
+                    alo, ahi = self.iv[a]
+                    if x == alo:
+                        self.iv[a] = [alo + 1, ahi]
+                    elif x == ahi:
+                        self.iv[a] = [alo, ahi - 1]
+                    if self.iv[a][0] > self.iv[a][1]:
+                        raise Infeasible()
+            return True  # otherwise not representable; sound to drop for exactness proofs
         if lin.is_const():
             if (op == 'Le' and lin.k > 0) or (op == 'Ge' and lin.k < 0):
                 raise Infeasible()
@@ -203,11 +215,13 @@ NEG = {'Lt': 'Ge', 'Ge': 'Lt', 'Gt': 'Le', 'Le': 'Gt', 'Eq': 'Ne', 'Ne': 'Eq'}
 class PathEval:
     """Enumerate the paths of a loop-free function; `on_return(path, state)` is called per complete path."""
 
-    def __init__(self, fn, param_atoms, max_paths=4096):
+    def __init__(self, fn, param_atoms, max_paths=4096, prog=None, atom_ranges=None):
+        self.prog = prog
+        self.atom_ranges = atom_ranges or {}
         self.fn = fn
         if not fn.is_acyclic():
             raise Unrecognised('%s is not loop-free: the path evaluator does not apply' % fn.name)
-        self.param_atoms = param_atoms  # local index -> atom name
+        self.param_atoms = dict(param_atoms)  # local index -> atom name
         self.max_paths = max_paths
         self.paths = 0
         self.obligations = []   # {'kind','pos','detail','ok'}
@@ -228,9 +242,11 @@ class PathEval:
             if k in st.env:
                 return st.env[k]
             l = o['pl']['l']
+            if not o['pl']['p'] and l not in self.param_atoms and 1 <= l <= self.fn.argc and int_range(self.fn.locals[l]):
+                self.param_atoms[l] = 'arg%d' % l
             if not o['pl']['p'] and l in self.param_atoms:
                 ty = self.fn.locals[l]
-                lo, hi = int_range(ty)
+                lo, hi = self.atom_ranges.get(self.param_atoms[l]) or int_range(ty)
                 return st.atom(self.param_atoms[l], lo, hi)
             # projection of a structured value
             base = st.env.get((l,))
@@ -366,6 +382,12 @@ class PathEval:
                 val = st.fresh_atom('max', max(l0, l1), max(h0, h1))
         if val is None:
             r = int_range(dty)
+            if r and self.prog is not None:
+                sr = return_interval(self.prog, t.get('res') or t.get('callee'))
+                if sr is not None:
+                    r = (max(r[0], sr[0]), min(r[1], sr[1]))
+            if r and last == 'len' and ('[T]' in name or 'slice' in name or 'Vec' in name):
+                r = (0, 2**63 - 1)
             if r:
                 val = st.fresh_atom(short(name).replace(' ', ''), r[0], r[1])
             else:
@@ -395,6 +417,11 @@ class PathEval:
                     return
                 if lo == hi == 0:
                     raise Infeasible()
+                st.constrain(v[2] - v[3], op)
+                lo2, hi2 = st.interval(v[2] - v[3])
+                if lo2 > 0 or hi2 < 0:
+                    st.guards.append((op, v[2], v[3]))
+                    return
             ok = st.constrain(v[2] - v[3], op)
             if not ok or op == 'Ne':
                 st.ignored.append((op, v[2], v[3]))
@@ -468,3 +495,41 @@ class PathEval:
             return
         # unreachable / resume: no result
         return
+
+
+_SUMMARY = {}
+
+
+def return_interval(prog, key, depth=0):
+    """Join of the intervals of the integer value a local, loop-free function returns (None if unknown)."""
+    fn = prog.fns.get(key)
+    if fn is None:
+        return None
+    ck = (id(prog), key)
+    if ck in _SUMMARY:
+        return _SUMMARY[ck]
+    _SUMMARY[ck] = None
+    r = int_range(fn.locals[0])
+    if r is None or depth > 3:
+        return None
+    try:
+        pe = PathEval(fn, {}, prog=prog)
+    except Unrecognised:
+        return None
+    out = []
+
+    def on_return(path, st):
+        v = st.env.get((0,))
+        if isinstance(v, Lin):
+            out.append(st.interval(v))
+        else:
+            out.append(r)
+    try:
+        pe.run(on_return)
+    except Unrecognised:
+        return None
+    if not out:
+        return None
+    res = (max(r[0], min(o[0] for o in out)), min(r[1], max(o[1] for o in out)))
+    _SUMMARY[ck] = res
+    return res
